@@ -398,6 +398,10 @@ func checkPauseFlags(viol func(prop, sig, msg string), op Op, b, a views.Vec, ap
 	if liveForPause(b.Status) && own(a) != ac.val {
 		viol("C11", "L1;must-apply;op="+op.Name+";status="+datatransfer.Statuses[b.Status], "pause/resume not applied in a live status")
 	}
+	// a resume of a party that IS paused is never meaningless while the channel is alive
+	if !ac.val && own(b) && own(a) && !(fin && !ac.initiator) && ResumeMeaningful(ac.initiator, b.Status) {
+		viol("C11", "L1;resume-of-a-paused-party-ignored;op="+op.Name+";status="+datatransfer.Statuses[b.Status], "the party was paused and resumed, but its flag is still set")
+	}
 	// nothing else changes
 	bb, aa := b, a
 	bb.IPaused, bb.RPaused, bb.Both, bb.SelfP = false, false, false, false
@@ -424,4 +428,18 @@ func init() {
 			})
 		}
 	}
+}
+
+// ResumeMeaningful: a resume by a party is meaningful (must clear its flag) for as long as that party may still be
+// moving data: the initiator until its own transport finished, the responder until it sent its Complete.
+func ResumeMeaningful(initiator bool, s datatransfer.Status) bool {
+	switch s {
+	case datatransfer.Requested, datatransfer.Queued, datatransfer.AwaitingAcceptance, datatransfer.Ongoing:
+		return true
+	case datatransfer.ResponderCompleted, datatransfer.ResponderFinalizing:
+		return initiator
+	case datatransfer.TransferFinished:
+		return !initiator
+	}
+	return false
 }
